@@ -217,6 +217,7 @@ func (b *bmpClient) loop() {
 			}
 
 			peerUpSent := make(map[netip.Addr]struct{})
+			locRIBSent := make(map[string]*table.Path)
 			for {
 				select {
 				case ev := <-w.Event():
@@ -271,10 +272,36 @@ func (b *bmpClient) loop() {
 							AS:      b.s.bgpConfig.Global.Config.As,
 							ID:      b.s.bgpConfig.Global.Config.RouterId,
 						}
+						paths := make([]*table.Path, 0)
 						for _, p := range locRIBPathsForBMP(msg) {
 							if p == nil {
 								continue
 							}
+							// The stream is sent with path identifiers (the Loc-RIB Peer Up
+							// announces ADD-PATH), so the new selected route of a prefix does
+							// not replace the previous one at the station when its identifier
+							// differs (RFC 7911): withdraw the previous one explicitly.
+							// (With multipath several routes of a prefix are selected at the
+							// same time and each is announced and withdrawn on its own.)
+							if b.s.bgpConfig.Global.UseMultiplePaths.Config.Enabled {
+								paths = append(paths, p)
+								continue
+							}
+							key := p.GetNlri().String()
+							prev, sent := locRIBSent[key]
+							if p.IsWithdraw {
+								if sent && prev.LocalID() == p.LocalID() {
+									delete(locRIBSent, key)
+								}
+							} else {
+								if sent && prev.LocalID() != p.LocalID() {
+									paths = append(paths, prev.Clone(true))
+								}
+								locRIBSent[key] = p
+							}
+							paths = append(paths, p)
+						}
+						for _, p := range paths {
 							options := bmpAddPathMarshallingOption(p)
 							u := table.CreateUpdateMsgFromPaths([]*table.Path{p}, options)[0]
 							if payload, err := u.Serialize(options); err != nil {
